@@ -190,7 +190,8 @@ def b_matmul_toeplitz_dense(g, b, n):
 
 
 def b_mul_roots(g, b, n):
-    return Spec({"R1": _rn(g, *b, n, n), "R2": _rn(g, *b, n, max(1, n - 1)) + 0.3},
+    # well conditioned by construction: R1 close to 1.5 I, the entries of R2 close to 1 (no row of R2 near zero)
+    return Spec({"R1": 0.3 * _rn(g, *b, n, n) + 1.5 * torch.eye(n, dtype=torch.float64), "R2": 0.3 * _rn(g, *b, n, max(1, n - 1)) + 1.0},
                 lambda L: O.MulLinearOperator(O.RootLinearOperator(L["R1"]), O.RootLinearOperator(L["R2"])),
                 lambda L: (L["R1"] @ L["R1"].mT) * (L["R2"] @ L["R2"].mT), psd=True)
 
@@ -432,7 +433,7 @@ def b_lrr_addeddiag(g, b, n):
 
 
 def b_root(g, b, n):
-    return Spec({"R": _rn(g, *b, n, n) + torch.eye(n, dtype=torch.float64) * 2}, lambda L: O.RootLinearOperator(L["R"]),
+    return Spec({"R": 0.3 * _rn(g, *b, n, n) + torch.eye(n, dtype=torch.float64) * 2}, lambda L: O.RootLinearOperator(L["R"]),
                 lambda L: L["R"] @ L["R"].mT, psd=True)
 
 
@@ -634,6 +635,7 @@ def instances(tier, names):
             except Exception as e:  # noqa
                 yield label, name, None, e
                 continue
+            torch.manual_seed(s)  # the library draws Lanczos start vectors / probes from the global RNG: make every instance reproducible
             yield label, name, spec, None
 
 
